@@ -128,7 +128,9 @@ func (m *mSchema) resync(s *jsonapi.Schema) {
 	}
 }
 
-func validKind(k int) bool { return k >= 1 && k <= 14 }
+// validKind asks the library's public vocabulary which attribute kinds exist
+// (so that a tree that gains a kind is not flagged); nullable is irrelevant.
+func validKind(k int) bool { return jsonapi.GetAttrTypeString(k, false) != "" }
 
 // invariants checks clause (d) of C14 on the real schema.
 func invariants(s *jsonapi.Schema) string {
